@@ -140,6 +140,23 @@ def boundary(what):
   _E().boundary_hits.append('%s at %s' % (what, ' < '.join(where)))
 
 
+import linecache, re as _re
+_LOG_RE = _re.compile(r'\b(_log|LOG|log|ROOT_LOG|logging|POOL_LOGGER|SINK_LOG)\.(debug|info|warning|warn|error|exception|critical)\(')
+
+
+def _log_site():
+  """'%d' % x inside a log call: formatting of a message nobody reads gets a placeholder (no
+  constraint, no fork).  Only statements that are log calls qualify (stub list 3.8)."""
+  f = sys._getframe(2)
+  for _ in range(3):
+    if f is None: return False
+    fn = f.f_code.co_filename
+    if '/scales/' in fn:
+      return bool(_LOG_RE.search(linecache.getline(fn, f.f_lineno)))
+    f = f.f_back
+  return False
+
+
 class SymInt(object):
   __slots__ = ('e',)
   def __init__(self, e):
@@ -241,8 +258,12 @@ class SymInt(object):
       if E.decide(self.e == mv): return mv
     boundary('%s of unbounded SymInt %s' % (what, self.e))
     raise _eng.PathLimit()
-  def __index__(self): return self.concretize(what='__index__')
-  def __int__(self): return self.concretize(what='__int__')
+  def __index__(self):
+    if _log_site(): return 0
+    return self.concretize(what='__index__')
+  def __int__(self):
+    if _log_site(): return 0
+    return self.concretize(what='__int__')
   def __repr__(self): return 'SymInt(%s)' % self.e
   def __format__(self, spec): return '<sym>'
   def __str__(self): return '<sym>'
